@@ -507,7 +507,13 @@ def random_trace(seed, tid, workdir, props):
     tgt = synth.make_molecule(os.path.join(workdir, 'rt'), 'RTGT', tnames, tbonds,
                               np.round(tpos, 3), residues=res_tgt)
     refmol.atoms_positions = pos
-    tgt.atoms_positions = tpos
+    if rng.random() < 0.1:
+        # target coordinates held in single precision (a trajectory frame): the construction conformation is what those
+        # numbers say, the results are ordinary double precision positions
+        tpos = tpos.astype(np.float32).astype(np.float64)
+        tgt.atoms_positions = tpos.astype(np.float32)
+    else:
+        tgt.atoms_positions = tpos
     ev = []
     if kind in ('tree', 'cyclic') and n >= 4 and rng.random() < 0.3:
         # a bond added programmatically after the topology was already used by a map: the new map must see it
@@ -562,9 +568,14 @@ def random_trace(seed, tid, workdir, props):
         tgt.atoms_positions = tpos @ _random_rotation(rng).T + rng.normal(size=3) * 3
         built_from.atoms_positions = pos @ _random_rotation(rng).T + rng.normal(size=3) * 3
     anchor_of = {}
-    for a, ts in m.equivalences.items():
+    eq_view = m.equivalences
+    for a, ts in eq_view.items():
         for t in ts:
             anchor_of[t] = a
+    # what the property hands out is the caller's to keep or to edit: the map does not depend on it afterwards
+    for ts in eq_view.values():
+        del ts[:]
+    eq_view.clear()
     d2 = ((tpos[:, None, :] - pos[None, :, :]) ** 2).sum(axis=2)
     ev.append({'op': 'Build', 'equiv': [anchor_of.get(t, -1) + 1 for t in range(nt)],
                'rk': [_ranks(list(d2[t])) for t in range(nt)]})
